@@ -185,6 +185,8 @@ fn long_history_family(ctx: &Ctx, cfg: &Cfg) -> JobOut {
     let streams: Vec<Vec<Op>> = vec![
         (0..len).map(|i| alpha[(i * 5 + i / 3) % alpha.len()]).collect(),
         (0..len).map(|i| if i == n / 2 || i == 2 * n { Op::Reset } else if i == n + 1 { nan } else { alpha[(i / 2) % alpha.len()] }).collect(),
+        // a tick-grid walk (ties, plateaus, runs): a checkpoint at every phase of a tie-rich history
+        super::refcmp::tick_walk(len, ctx.seed ^ 0x6, !cfg.kind.has_scalar(), true, false).as_ref().clone(),
     ];
     let conts: Vec<Vec<Op>> = vec![
         (0..n + 2).map(|i| alpha[i % alpha.len()]).collect(),
